@@ -3808,19 +3808,23 @@ scaled_bilinear_scanline_mmx_8888_8_8888_OVER (uint32_t *       dst,
 
 	if (m)
 	{
+	    __m64 ms;
+
 	    BILINEAR_INTERPOLATE_ONE_PIXEL (pix1);
 
-	    if (m == 0xff && is_opaque (pix1))
+	    /* is_opaque() wants the unpacked pixel */
+	    ms = _mm_unpacklo_pi8 (pix1, _mm_setzero_si64 ());
+
+	    if (m == 0xff && is_opaque (ms))
 	    {
 		store (dst, pix1);
 	    }
 	    else
 	    {
-		__m64 ms, md, ma, msa;
+		__m64 md, ma, msa;
 
 		pix2 = load (dst);
 		ma = expand_alpha_rev (to_m64 (m));
-		ms = _mm_unpacklo_pi8 (pix1, _mm_setzero_si64 ());
 		md = _mm_unpacklo_pi8 (pix2, _mm_setzero_si64 ());
 
 		msa = expand_alpha (ms);
